@@ -16,7 +16,7 @@ RULE = ("array dimensions as C03 (1..3 dims, extents <=3, N<=14) plus a wide str
         "argument forms, weights none / positive array; both policies; per cell the statistic is recomputed from the rows of "
         "the cell with NumPy: stddev (ddof=1; weighted: reliability-weighted variance x n/(n-1)), quantile for p in {0, 0.1, "
         "0.25, 0.5, 0.9, 1} (unweighted, linear interpolation), weighted-quantile laws (missing rule, invariance under "
-        "rescaling all weights, result within [min, max] of the valid values), min/max for float/int/datetime64 facts, "
+        "rescaling all weights, result within [min, max] of the valid values), min/max for float/int/datetime64 facts (datetime also as a single NaT-marked array, both report formats), "
         "covariance (optionally weighted) and unweighted correlation (complete rows when ignoring, per column pair "
         "otherwise; entries with zero variance or <2 rows not compared); NaN and (values, validity) formats must describe "
         "the same missing cells and values. Non-trivial = a cell with >=2 valid rows; distinct by (case, statistic)")
@@ -195,23 +195,35 @@ def check(ctx, case, reqs, pend):
                             p, cell, got, float(at(scaled, cell, c))), d, cls="C18-wquantile-scale")
     # ---------------- min / max (one-column facts; float, int, datetime64) ----------------
     if K is None:
-        for kind in ("float", "int", "datetime"):
+        for kind in ("float", "int", "datetime", "datetime_nat"):
             if kind == "float":
                 vals, arg = fv, fa
             elif kind == "int":
                 vals = np.round(fv * 8).astype(np.int64)
                 arg = (vals.copy(), fk.copy())
-            else:
+            elif kind == "datetime":
                 vals = (np.datetime64("2020-01-01") + np.round(fv * 8).astype("timedelta64[D]"))
                 arg = (vals.copy(), fk.copy())
+            else:
+                # the documented single-array form of a datetime fact: missing rows are NaT
+                vals = (np.datetime64("2020-01-01") + np.round(fv * 8).astype("timedelta64[D]"))
+                arg = vals.copy()
+                arg[~fk] = np.datetime64("NaT")
             for opn in ("min", "max"):
                 name = opn + "/" + kind
                 d = dict(desc0, stat=name)
                 ctx.case(d, nontrivial=any(len(r) >= 2 for r in rows_of.values()))
                 ctx.hit(name)
-                null = (np.datetime64("NaT"), False) if kind == "datetime" else (0, False)
+                null = (np.datetime64("NaT"), False) if kind.startswith("datetime") else (0, False)
                 try:
                     ov, ok_out = getattr(xc, opn)(arg, ignore_missing=ign, return_missing_as=null)
+                    if kind == "datetime_nat":
+                        # the in-place report (NaT where missing) must describe the same cells and values
+                        inplace = getattr(xc, opn)(arg, ignore_missing=ign, return_missing_as=np.datetime64("NaT"))
+                        if not np.array_equal(np.isnat(inplace), ~np.asarray(ok_out, dtype=bool)) or \
+                                not np.array_equal(inplace[np.asarray(ok_out, dtype=bool)], ov[np.asarray(ok_out, dtype=bool)]):
+                            ctx.oracle_fail("%s: the NaT-in-place report and the (values, validity) report disagree" % name, d,
+                                            cls="C18-minmax-formats")
                 except Exception as e:
                     ctx.oracle_fail("%s raised %s: %s" % (name, type(e).__name__, str(e)[:80]), d, cls="C18-minmax-raises")
                     continue
